@@ -77,8 +77,8 @@ def relate_geometry(apA, apB2, apB3):
     exps, bad = {}, []
     for kname, v in sorted(vars(apA).items()):
         v = _floats(v)
-        if v is None or v.shape[0] != N or kname in ("q", "v", "w", "p_bar", "CG"):
-            continue
+        if v is None or kname in ("q", "v", "w", "p_bar") or (v.shape[0] != N and kname != "CG"):
+            continue                    # CG (body-frame centre of gravity) is read by the joint-velocity lines of the pipeline
         w2, w3 = _floats(getattr(apB2, kname, None)), _floats(getattr(apB3, kname, None))
         if w2 is None or w3 is None or w2.shape != v.shape:
             bad.append(kname)
@@ -118,7 +118,7 @@ TABLES = {
                 "_dF_inv": 2, "_dM_inv": 2, "_dF_visc": 2, "_dM_visc": 2, "R": 2, "F": 2, "M": 2, "gamma": 1},
     "density": {"_V_ji_const": 0, "_V_ji": 0, "_u_trailing_0": 0, "_u_trailing_1": 0, "_alpha_inf": 0, "_v_i": 0, "_w_i": 0, "_w_i_mag": 0, "_alpha": 0,
                 "_dF_inv": 1, "_dM_inv": 1, "_dF_visc": 1, "_dM_visc": 1, "R": 0, "F": 1, "M": 1, "gamma": 0},
-    "length":  {"_V_ji_const": -1, "_V_ji": -1, "_u_trailing_0": 0, "_u_trailing_1": 0, "_alpha_inf": 0, "_v_i": 0, "_w_i": 0, "_w_i_mag": 0, "_alpha": 0,
+    "length":  {"_V_ji_const": -1, "_V_ji": -1, "_u_trailing_0": 0, "_u_trailing_1": 0, "_alpha_inf": 0, "_v_i": 0, "_w_i": 1, "_w_i_mag": 1, "_alpha": 0,   # w_i = v_i x dl
                 "_dF_inv": 2, "_dM_inv": 3, "_dF_visc": 2, "_dM_visc": 3, "R": 2, "F": 2, "M": 3, "gamma": 1},
 }
 
@@ -158,31 +158,44 @@ def scaling_twin(ck, kind, mem, N, solver, label):
         elif kind == "density":
             stB.update(rho=stA["rho"] * k)
         else:
-            stB.update(p=[x * k for x in stA["p"]], w=[x / k for x in stA["w"]], Sw=stA["Sw"] * k * k, lon=stA["lon"] * k, lat=stA["lat"] * k)
+            om = stA["w"]
+            stA = dict(stA, w=[x * k for x in om])          # rates of the original = k x rates of the enlarged copy: no reciprocal of k anywhere
+            stB = dict(stA, w=om, p=[x * k for x in stA["p"]], Sw=stA["Sw"] * k * k, lon=stA["lon"] * k, lat=stA["lat"] * k)
         dA = member(mem, N)
         info = {}
 
+        kA = sym("kA")                    # unit scale of run A, kept symbolic so that both runs have the same expression structure
+        if kind == "length":
+            c.assume(zexpr(kA) == 1)
+            from checks.families import LinearAirfoil
+            z0 = [exact(0)] * 3
+            st0 = {"q": [exact(1), exact(0), exact(0), exact(0)], "p": z0, "v": [exact(100), exact(0), exact(5)], "w": z0, "W": z0, "rho": exact(1), "Sw": exact(1), "lon": exact(1), "lat": exact(1)}
+            aps = [build(scale_dict(dA, f), st0, solver, airfoil=LinearAirfoil)._airplanes["p"] for f in (1.0, 2.0, 3.0)]
+            exps, bad = relate_geometry(*aps)
+            info.update(exps=exps, bad=bad)
+            base = {attr: _floats(getattr(aps[0], attr)) for attr in exps}
+
+        def put_geometry(sc, factor):
+            ap = sc._airplanes["p"]
+            for attr, pw in info["exps"].items():
+                a = base[attr]
+                out = np.empty(a.shape, dtype=object)
+                f = power(factor, pw)
+                for ix in np.ndindex(a.shape):
+                    out[ix] = SR(float(a[ix])) * f if pw else SR(float(a[ix]))
+                setattr(ap, attr, wrap(out))
+            sc._store_aircraft_properties()
+
         def mkA():
             sc = build(dA, stA, solver)
-            info["apA"] = sc._airplanes["p"]
+            if kind == "length":
+                put_geometry(sc, kA)
             return sc
 
         def mkB():
-            if kind != "length":
-                return build(dA, stB, solver)
-            sc = build(scale_dict(dA, 2.0), stB, solver)
-            sc3 = build(scale_dict(dA, 3.0), stB, solver)
-            apB = sc._airplanes["p"]
-            exps, bad = relate_geometry(info["apA"], apB, sc3._airplanes["p"])
-            info.update(exps=exps, bad=bad)
-            for attr, p in exps.items():
-                a = np.asarray(getattr(info["apA"], attr), dtype=object)
-                out = np.empty(a.shape, dtype=object)
-                f = power(k, p)
-                for i in np.ndindex(a.shape):
-                    out[i] = SR(a[i]) * f if p else SR(a[i])
-                setattr(apB, attr, wrap(out))
-            sc._store_aircraft_properties()
+            sc = build(dA, stB, solver)
+            if kind == "length":
+                put_geometry(sc, k)
             return sc
         gamA = None
 
@@ -208,8 +221,12 @@ def scaling_twin(ck, kind, mem, N, solver, label):
         def scalar(x, attr, kk):
             return x * power(k, tab[attr]) if tab[attr] else x
         T = TW.Transform(vec=vec, scalar=scalar, name="%s scaling" % kind)
+        if kind == "length":
+            T.fact_exp = {a: -e for a, e in tab.items() if a.startswith("_") and e < 0}
+            T.fact_base = k
         zk = zexpr(k)
         scales = [zk, zk * zk, zk * zk * zk, zk * zk * zk * zk]
+
         tw = TW.Twin(T, rules=make_scale_rules(scales), align_timeout_ms=4000, align=True)
         outA, outB, scA, scB = tw.run(mkA, mkB, pipeline)
         return {"A": outA, "B": outB, "tw": tw, "N": scA._N, "info": info, "k": k}
@@ -356,7 +373,9 @@ def main(tier, seed, only=None):
                     "uniqueness of the root of the lifting-line equations", "trailing vortex impinging on a control point (denominators assumed > 1e-13)",
                     "geometry generation at scale factors other than 2 and 3", "nondimensional derivatives (finite differences of the coefficients shown invariant here; step handling is decided in C08)")
     full = dict(use_swept_sections=True, use_total_velocity=True, use_in_plane=True)
-    plan = [("speed", "r1", 3, full, "speed scaling r1 Reid N=3"), ("density", "r1", 3, full, "density scaling r1 Reid N=3")]
+    plan = [("speed", "r1", 3, full, "speed scaling r1 Reid N=3"), ("density", "r1", 3, full, "density scaling r1 Reid N=3"), ("length", "r1", 3, full, "length scaling r1 Reid N=3")]
+    if tier == "thorough":
+        plan += [("length", "g3", 2, full, "length scaling g3 one-sided y_offset N=4"), ("length", "r1", 3, dict(use_swept_sections=False, use_total_velocity=False, use_in_plane=False), "length scaling r1 options off N=3")]
     geom = [("r1", 3, "length geometry r1 Reid N=3"), ("r2", 3, "length geometry r2 Reid + Kuchemann offset N=3"), ("g2", 2, "length geometry g2 wing+fin Reid N=7")]
     if tier == "thorough":
         geom += [("g3", 2, "length geometry g3 one-sided y_offset N=4"), ("g4", 2, "length geometry g4 chained segments + winglets N=12")]
